@@ -35,6 +35,36 @@ func c10ints(toks []string) []int {
 	return vs
 }
 
+// Hang containment.  A call that never returns (F7: invalidate() on a
+// self-linked entry) is turned into the observation "hang" by the framework's
+// per-case watchdog, which abandons the goroutine; that costs 10 s and one
+// spinning goroutine per hanging case.  To keep a run against a hanging tree
+// bounded, every risky call is bracketed by c10enter/c10leave: a marker that is
+// still set when the next case starts means the previous call of that class
+// never returned.  After two such real hangs of a class (op name, stale or
+// not) in this process, further calls of the class are not executed and
+// reported as "hang" directly (the rest of the case as "skipped", exactly as
+// the framework does).  On a tree where nothing hangs this never triggers;
+// shrinking and replay re-run candidates in fresh processes, i.e. for real.
+var (
+	c10inflight string
+	c10hung     = map[string]int{}
+)
+
+func c10enter(class string) bool {
+	if c10inflight != "" {
+		c10hung[c10inflight]++
+		c10inflight = ""
+	}
+	if c10hung[class] >= 2 {
+		return false
+	}
+	c10inflight = class
+	return true
+}
+
+func c10leave() { c10inflight = "" }
+
 // ---------------------------------------------------------------- C10.stack
 
 type c10stack struct {
@@ -144,18 +174,42 @@ func genC10stack(g *G) {
 // ---------------------------------------------------------------- C10.mlink
 
 type c10mlink struct {
-	l   *mlink.List[int]
-	cur [4]*mlink.Cursor[int]
-	st  *Stats
+	l    *mlink.List[int]
+	cur  [4]*mlink.Cursor[int]
+	st   *Stats
+	skip bool
+}
+
+// closed reports whether the chain of the list reaches its end within a
+// bounded number of steps (walked by hand with a cursor); Each/Len/At/... are
+// only called when it does, so a cyclic chain is an observation, not a hang.
+func (r *c10mlink) closed() (ok bool) {
+	defer func() {
+		if recover() != nil {
+			ok = false
+		}
+	}()
+	c := *r.l.At(0)
+	for i := 0; i < c10walkMax; i++ {
+		if c.AtEnd() {
+			return true
+		}
+		c.Next()
+	}
+	return false
 }
 
 func (r *c10mlink) dump(res string) string {
 	var sb strings.Builder
 	sb.WriteString(res)
-	var all []int
-	r.l.Each(func(v int) bool { all = append(all, v); return true })
-	v0, ok0 := r.l.Peek(0)
-	fmt.Fprintf(&sb, " list=%s len=%d empty=%s peek0=%s", fmtInts(all), r.l.Len(), fmtBool(r.l.IsEmpty()), fmtPop(v0, ok0))
+	if r.closed() {
+		var all []int
+		r.l.Each(func(v int) bool { all = append(all, v); return true })
+		v0, ok0 := r.l.Peek(0)
+		fmt.Fprintf(&sb, " list=%s len=%d empty=%s peek0=%s", fmtInts(all), r.l.Len(), fmtBool(r.l.IsEmpty()), fmtPop(v0, ok0))
+	} else {
+		sb.WriteString(" list=open")
+	}
 	for i, c := range r.cur {
 		if c == nil {
 			fmt.Fprintf(&sb, " c%d=-", i)
@@ -205,9 +259,29 @@ func (r *c10mlink) Exec(op []string) string {
 		r.cur = [4]*mlink.Cursor[int]{}
 		return r.dump("-")
 	}
+	if r.skip {
+		return "skipped"
+	}
+	class := "mlink/" + op[0]
+	if len(op) > 1 && op[1][0] == 'c' {
+		if c := r.cur[c10reg(op[1])]; c != nil && c10stale(c) {
+			class += "/stale"
+		}
+	}
+	if !c10enter(class) {
+		r.skip = true
+		return "hang"
+	}
+	defer c10leave()
 	staleBefore := r.countStale()
 	res := c10try(r.st, func() string {
 		// cursor-creating and list-level operations
+		switch op[0] {
+		case "at", "find", "last", "end", "clear", "peek", "each", "len":
+			if !r.closed() {
+				return "open"
+			}
+		}
 		switch op[0] {
 		case "at":
 			n := atoi(op[2])
@@ -416,11 +490,20 @@ func genC10mlink(g *G) {
 // ---------------------------------------------------------------- C10.mlinkq
 
 type c10mlinkq struct {
-	q  *mlink.Queue[int]
-	st *Stats
+	q    *mlink.Queue[int]
+	st   *Stats
+	skip bool
 }
 
 func (r *c10mlinkq) Exec(op []string) string {
+	if r.skip {
+		return "skipped"
+	}
+	if !c10enter("mlinkq/" + op[0]) {
+		r.skip = true
+		return "hang"
+	}
+	defer c10leave()
 	res := c10try(r.st, func() string {
 		switch op[0] {
 		case "reset":
@@ -556,7 +639,10 @@ func (r *c10ring) dump(res string) string {
 	return sb.String()
 }
 
-// sameRing reports the distance from a to b along Next, or -1 when b is not on a's ring.
+// c10len is the number of elements met walking Next by hand (0 when the chain does not close).
+func c10len(r *ring.Ring[int]) int { return len(c10walk(r, (*ring.Ring[int]).Next)) }
+
+// c10dist reports the distance from a to b along Next, or -1 when b is not on a's ring.
 func c10dist(a, b *ring.Ring[int]) int {
 	cur := a
 	for i := 0; i < c10walkMax; i++ {
@@ -597,11 +683,11 @@ func (r *c10ring) Exec(op []string) string {
 				d := c10dist(a, b)
 				switch {
 				case d < 0:
-					r.st.Note(fmt.Sprintf("join-different-%dx%d", a.Len(), b.Len()))
+					r.st.Note(fmt.Sprintf("join-different-%dx%d", c10len(a), c10len(b)))
 				case d <= 1:
 					r.st.Note(fmt.Sprintf("join-same-dist%d-noop", d))
 				default:
-					r.st.Note(fmt.Sprintf("join-same-dist%d-of-%d", d, a.Len()))
+					r.st.Note(fmt.Sprintf("join-same-dist%d-of-%d", d, c10len(a)))
 				}
 			}
 			r.r[c10reg(op[1])] = a.Join(b)
@@ -640,10 +726,16 @@ func (r *c10ring) Exec(op []string) string {
 			v, ok := r.r[c10reg(op[1])].Peek(atoi(op[2]))
 			return fmtPop(v, ok)
 		case "len":
+			if e := r.r[c10reg(op[1])]; e != nil && c10walk(e, (*ring.Ring[int]).Next) == nil {
+				return "open"
+			}
 			return fmt.Sprint(r.r[c10reg(op[1])].Len())
 		case "each":
 			k := atoi(op[2])
 			got := []int{}
+			if e := r.r[c10reg(op[1])]; e != nil && c10walk(e, (*ring.Ring[int]).Next) == nil {
+				return "open"
+			}
 			r.r[c10reg(op[1])].Each(func(v int) bool {
 				got = append(got, v)
 				return len(got) <= k
